@@ -199,6 +199,11 @@ let () =
               report "hull/upper-bound" (want true (incl (get (int_of_string b)) o)))
        | "widen" :: w :: id :: x :: y :: t :: extra ->
            incr step; incr stats_steps;
+           (* extra parameters (custom stop points) are part of the call, not of the operator's name *)
+           let w = (match String.index_opt w '[' with
+             | Some i -> bump ("stop-points:" ^ string_of_int (List.length (List.filter (fun z -> z <> "") (String.split_on_char ',' (String.sub w (i + 1) (String.length w - i - 2))))));
+                         String.sub w 0 i
+             | None -> w) in
            let t = int_of_string t in
            bump ("widen:" ^ w ^ (if t < 0 then "" else if t = 0 then "/tok0" else "/tok"));
            (match expect_res "widen" with
